@@ -161,11 +161,11 @@ func runC06Timer(s c06script) (key, what string) {
 // ---- layer 2: end to end on a real node ----
 
 type c06e2e struct {
-	Peers     int      `json:"peers"` // responsive fake peers besides the target
-	Confs     []confEv `json:"confirmations"`
-	RefuteAt  time.Duration `json:"refute_at_ns,omitempty"` // 0 = none; offset from first suspicion start
-	ForeignDeadAt time.Duration `json:"foreign_dead_at_ns,omitempty"`
-	AccuseSelfFirst bool `json:"accuse_self_first,omitempty"` // raise V's health score before the suspicion starts
+	Peers           int           `json:"peers"` // responsive fake peers besides the target
+	Confs           []confEv      `json:"confirmations"`
+	RefuteAt        time.Duration `json:"refute_at_ns,omitempty"` // 0 = none; offset from first suspicion start
+	ForeignDeadAt   time.Duration `json:"foreign_dead_at_ns,omitempty"`
+	AccuseSelfFirst bool          `json:"accuse_self_first,omitempty"` // raise V's health score before the suspicion starts
 }
 
 func runC06E2E(run *Run, seed int64, sc c06e2e) (out []*c01Result) {
